@@ -8,123 +8,123 @@ HERE = os.path.dirname(os.path.dirname(os.path.abspath(__file__)))
 
 CLAIMS = {
     'C01': {
-        "text": "Structural theorems of the decomposition loop (shape, every replacement checked, failure state, non-gates untouched, fresh identities: any Num instance, closed) and exactness of the numeric kernels over R in the exact regime: A-B-A angles for all six axis pairs (aba_angles_exact_strong, gate level aba_decompose_exact), McKay (McKayP), with the ATOL-band counterexample proved as a refutation. The model reproduces the implementation on every generated case (8 decomposers x axis/angle grid + random circuits incl. 100000-qubit registers); a Kraus-branch numpy simulation decides equivalence. Known finding F3 (ATOL bands wider than the checker's tolerance) is reported as KNOWN-FINDING.",
+        "text": "Structural theorems of the decomposition loop (shape, every replacement checked, failure state, non-gates untouched, fresh identities: any Num instance, closed) and exactness of the numeric kernels over R in the exact regime: A-B-A angles for all six axis pairs (aba_angles_exact_strong, gate level aba_decompose_exact), McKay (McKayP), with the ATOL-band counterexample proved as a refutation. The model reproduces the implementation on every generated case (8 decomposers x axis/angle grid + random circuits incl. 100000-qubit registers); a Kraus-branch numpy simulation decides equivalence. Known finding F3 (ATOL bands wider than the checker's tolerance) is reported as KNOWN-FINDING. WHOLE-CIRCUIT theorems on a Kraus-operator semantics with measurements and resets (Theory/Kraus.v, = the extracted Model/Sem.v at R, run against the numpy simulation): the decomposition loop preserves the operation for every outcome assignment (decompose_loop_same_operation_any), flagships for the A-B-A, McKay and CNOT decomposers on any register (SemP, SemDecP). The numeric kernels are regenerated from the Python source on every run and proved equal to the model (Gen/KC_*_ok).",
         "note": "Trusted: Coq kernel (coqc, full .vo build; axioms printed per theorem, only those of the standard library's Reals where R is used), extraction with ExtrOcamlBasic/ExtrOcamlString only, the hand-written OCaml float dictionary (IEEE doubles + glibc libm stand in for R in the executable model) and driver, the Python serializer/comparator. Modelled, not verified: numpy, CPython float formatting/rounding, libqasm, quantify-scheduler, networkx. Exact-regime hypotheses exclude the ATOL bands (sampled densely instead); CNOT-decomposer exactness is proved at the SU(2)/block level where available (see Props/C01.v); doubles vs reals trusted and sampled.",
-        "technique": 'Coq 8.16.1 proof over an executable Gallina model; model tied to /repo by extraction to OCaml run against the implementation on generated inputs (correspondence) and, for tables/constants, by a translator + reflexivity check; independent numpy oracle searches for failing inputs',
+        "technique": 'Coq 8.16.1 proof over an executable Gallina model; model tied to /repo by extraction to OCaml run against the implementation on generated inputs (correspondence) and, for tables/constants, by a translator (tables, constants, numeric kernels) whose output is proved equal to the model; independent numpy oracle searches for failing inputs',
         "design_ref": "DESIGN.md section 6 C01",
     },
     'C02': {
-        "text": 'merge_keeps_others, merge_per_qubit (exact per-qubit characterisation: nothing crosses a barrier on its qubit), merge_total / merge_ok_iff_wf for any Num instance (closed); compose_exact over R with the 7-decimal rounding idealised and bounded separately (Rround7_error). Exhaustive sequences over a 12-template alphabet plus random circuits run against the model and a Kraus-branch oracle.',
+        "text": 'merge_keeps_others, merge_per_qubit (exact per-qubit characterisation: nothing crosses a barrier on its qubit), merge_total / merge_ok_iff_wf for any Num instance (closed); compose_exact over R with the 7-decimal rounding idealised and bounded separately (Rround7_error). Exhaustive sequences over a 12-template alphabet plus random circuits run against the model and a Kraus-branch oracle. WHOLE-CIRCUIT: merge_same_operation (any circuit with measurements/resets, any register, every outcome assignment, exact setting) via commutation of operators on disjoint qubits; the 7-decimal rounding is bounded at the operator level and propagated along runs (RoundP: 1.37e-7 per composition, k*2.74e-7 per run). compose and is_identity are regenerated from the source and proved equal to the model.',
         "note": "Trusted: Coq kernel (coqc, full .vo build; axioms printed per theorem, only those of the standard library's Reals where R is used), extraction with ExtrOcamlBasic/ExtrOcamlString only, the hand-written OCaml float dictionary (IEEE doubles + glibc libm stand in for R in the executable model) and driver, the Python serializer/comparator. Modelled, not verified: numpy, CPython float formatting/rounding, libqasm, quantify-scheduler, networkx. compose exactness idealises np.round (error bound proved separately, not propagated to the matrix level); naming substitutes allclose default gates (tolerance 3e-5 per gate in the oracle).",
-        "technique": 'Coq 8.16.1 proof over an executable Gallina model; model tied to /repo by extraction to OCaml run against the implementation on generated inputs (correspondence) and, for tables/constants, by a translator + reflexivity check; independent numpy oracle searches for failing inputs',
+        "technique": 'Coq 8.16.1 proof over an executable Gallina model; model tied to /repo by extraction to OCaml run against the implementation on generated inputs (correspondence) and, for tables/constants, by a translator (tables, constants, numeric kernels) whose output is proved equal to the model; independent numpy oracle searches for failing inputs',
         "design_ref": "DESIGN.md section 6 C02",
     },
     'C03': {
-        "text": 'mapping_ok_iff_perm, remap_relabels / skeleton / both descriptions, remap_inverse, refusals and error characterisation, all three text/export views and the replace-callback view (any element type, closed); conjugation by the qubit permutation at the matrix level (EmbedP.get_matrix_relabel, over R). Exhaustive candidate lists and permutations, circuits after earlier passes incl. shared callback objects.',
+        "text": 'mapping_ok_iff_perm, remap_relabels / skeleton / both descriptions, remap_inverse, refusals and error characterisation, all three text/export views and the replace-callback view (any element type, closed); conjugation by the qubit permutation at the matrix level (EmbedP.get_matrix_relabel, over R). Exhaustive candidate lists and permutations, circuits after earlier passes incl. shared callback objects. WHOLE-CIRCUIT: remap_same_operation_up_to_relabelling — the mapped circuit\'s Kraus operator is P K P^T for every outcome assignment (SemRemapP), composition with the other passes (SemAllP).',
         "note": "Trusted: Coq kernel (coqc, full .vo build; axioms printed per theorem, only those of the standard library's Reals where R is used), extraction with ExtrOcamlBasic/ExtrOcamlString only, the hand-written OCaml float dictionary (IEEE doubles + glibc libm stand in for R in the executable model) and driver, the Python serializer/comparator. Modelled, not verified: numpy, CPython float formatting/rounding, libqasm, quantify-scheduler, networkx. The functional model has no partially mapped state (remap returns Err and no circuit); object sharing is handled by the repaired implementation (each Qubit object once) and checked by correspondence.",
-        "technique": 'Coq 8.16.1 proof over an executable Gallina model; model tied to /repo by extraction to OCaml run against the implementation on generated inputs (correspondence) and, for tables/constants, by a translator + reflexivity check; independent numpy oracle searches for failing inputs',
+        "technique": 'Coq 8.16.1 proof over an executable Gallina model; model tied to /repo by extraction to OCaml run against the implementation on generated inputs (correspondence) and, for tables/constants, by a translator (tables, constants, numeric kernels) whose output is proved equal to the model; independent numpy oracle searches for failing inputs',
         "design_ref": "DESIGN.md section 6 C03",
     },
     'C04': {
-        "text": "render_fix_is_literal / render_fix_value: every finite float is written as a literal of the cQASM 3 float grammar that reads back to the same 8-digit decimal, for ALL exponents; line structure, gate line shape, comment termination (closed under the global context). Written text of generated circuits is compared with the model's text and fed to the real parser. Known finding: measure_z is written but not parseable.",
+        "text": "render_fix_is_literal / render_fix_value: every finite float is written as a literal of the cQASM 3 float grammar that reads back to the same 8-digit decimal, for ALL exponents; line structure, gate line shape, comment termination (closed under the global context). Written text of generated circuits is compared with the model's text and fed to the real parser. Known finding: measure_z is written but not parseable. TEXT LEVEL: an executable reader (Model/Reader.read3, run against libqasm on every written text) and the round trip read3_write3 (names, parameters as 8-digit literals, qubits, bit targets, comments incl. multi-line); END TO END parse_read_write (write -> read -> AST -> parser model) and the same operation on the Kraus semantics (RoundTripP).",
         "note": "Trusted: Coq kernel (coqc, full .vo build; axioms printed per theorem, only those of the standard library's Reals where R is used), extraction with ExtrOcamlBasic/ExtrOcamlString only, the hand-written OCaml float dictionary (IEEE doubles + glibc libm stand in for R in the executable model) and driver, the Python serializer/comparator. Modelled, not verified: numpy, CPython float formatting/rounding, libqasm, quantify-scheduler, networkx. The float-literal grammar (Theory/Lexer.v) is an assumption about libqasm 0.6.7 exercised by the real parser on every case; the double -> 8 digits decimalisation is an oracle (printf).",
-        "technique": 'Coq 8.16.1 proof over an executable Gallina model; model tied to /repo by extraction to OCaml run against the implementation on generated inputs (correspondence) and, for tables/constants, by a translator + reflexivity check; independent numpy oracle searches for failing inputs',
+        "technique": 'Coq 8.16.1 proof over an executable Gallina model; model tied to /repo by extraction to OCaml run against the implementation on generated inputs (correspondence) and, for tables/constants, by a translator (tables, constants, numeric kernels) whose output is proved equal to the model; independent numpy oracle searches for failing inputs',
         "design_ref": "DESIGN.md section 6 C04",
     },
     'C05': {
-        "text": 'passes_preserve (PassesP): ANY finite sequence of decompose / replace / merge / map passes preserves well-formedness and coherence (name+arguments re-evaluate to the stored operation); unconditional for wf and qubit agreement, exact coherence after merge under the explicit numeric hypothesis compose_identity_exact (refuted for a degenerate Num instance). Bounded-exhaustive pass sequences with per-step correspondence and Kraus equivalence modulo the accumulated permutation.',
+        "text": 'passes_preserve (PassesP): ANY finite sequence of decompose / replace / merge / map passes preserves well-formedness and coherence (name+arguments re-evaluate to the stored operation); unconditional for wf and qubit agreement, exact coherence after merge under the explicit numeric hypothesis compose_identity_exact (refuted for a degenerate Num instance). Bounded-exhaustive pass sequences with per-step correspondence and Kraus equivalence modulo the accumulated permutation. FLAGSHIP run_passes_all_same_operation: any sequence of decompose / replace / merge / map preserves the operation modulo the accumulated qubit permutation, K\' = z P K P^T for every outcome assignment (SemAllP; per-pass exactness hypotheses threaded).',
         "note": "Trusted: Coq kernel (coqc, full .vo build; axioms printed per theorem, only those of the standard library's Reals where R is used), extraction with ExtrOcamlBasic/ExtrOcamlString only, the hand-written OCaml float dictionary (IEEE doubles + glibc libm stand in for R in the executable model) and driver, the Python serializer/comparator. Modelled, not verified: numpy, CPython float formatting/rounding, libqasm, quantify-scheduler, networkx. Equivalence of the operation rests on the per-pass kernels (C01, C02, C03) and is checked by the oracle; write+parse has no model step (libqasm).",
-        "technique": 'Coq 8.16.1 proof over an executable Gallina model; model tied to /repo by extraction to OCaml run against the implementation on generated inputs (correspondence) and, for tables/constants, by a translator + reflexivity check; independent numpy oracle searches for failing inputs',
+        "technique": 'Coq 8.16.1 proof over an executable Gallina model; model tied to /repo by extraction to OCaml run against the implementation on generated inputs (correspondence) and, for tables/constants, by a translator (tables, constants, numeric kernels) whose output is proved equal to the model; independent numpy oracle searches for failing inputs',
         "design_ref": "DESIGN.md section 6 C05",
     },
     'C06': {
-        "text": "check_sound (acceptance => on the gate's qubits, matrices agree up to one factor within 1e-8+1e-5|.|), completeness in the exact regime, empty list accepted for an identity gate, foreign qubits rejected first, failure state of the loop, replacer keyed on the generator name, and the embedding theorem (what was compared on k qubits is what happens on n). (gate, candidate) pairs with perturbations and faulty decomposers at every position.",
+        "text": "check_sound (acceptance => on the gate's qubits, matrices agree up to one factor within 1e-8+1e-5|.|), completeness in the exact regime, empty list accepted for an identity gate, foreign qubits rejected first, failure state of the loop, replacer keyed on the generator name, and the embedding theorem (what was compared on k qubits is what happens on n). (gate, candidate) pairs with perturbations and faulty decomposers at every position. The checker's verdict is carried from the gate's own qubits to the register (check_exact_lifts, check_sound_lifts); replace(CNOT->H CZ H) and (CZ->H CNOT H) preserve the operation on any register; the repaired comparison (phase reference = largest entry, tolerance ATOL) is modelled and re-proved (argmax_entry_spec, equiv_up_to_phase_well_conditioned).",
         "note": "Trusted: Coq kernel (coqc, full .vo build; axioms printed per theorem, only those of the standard library's Reals where R is used), extraction with ExtrOcamlBasic/ExtrOcamlString only, the hand-written OCaml float dictionary (IEEE doubles + glibc libm stand in for R in the executable model) and driver, the Python serializer/comparator. Modelled, not verified: numpy, CPython float formatting/rounding, libqasm, quantify-scheduler, networkx. Between distance 1e-9 and 1e-4 nothing is demanded; |factor| = 1 for unitaries is not proved.",
-        "technique": 'Coq 8.16.1 proof over an executable Gallina model; model tied to /repo by extraction to OCaml run against the implementation on generated inputs (correspondence) and, for tables/constants, by a translator + reflexivity check; independent numpy oracle searches for failing inputs',
+        "technique": 'Coq 8.16.1 proof over an executable Gallina model; model tied to /repo by extraction to OCaml run against the implementation on generated inputs (correspondence) and, for tables/constants, by a translator (tables, constants, numeric kernels) whose output is proved equal to the model; independent numpy oracle searches for failing inputs',
         "design_ref": "DESIGN.md section 6 C06",
     },
     'C07': {
         "text": 'One theorem per default gate over R against the standard matrices (up to phase for single-qubit gates, EXACT target operator for CNOT, CZ, CR(theta) for all theta, CRk(k) for all integer k), about the table regenerated from default_gates.py on every run (TableCheck by reflexivity). All gates x placements x parameter grids x three creation paths run against the model and numpy standard matrices.',
         "note": "Trusted: Coq kernel (coqc, full .vo build; axioms printed per theorem, only those of the standard library's Reals where R is used), extraction with ExtrOcamlBasic/ExtrOcamlString only, the hand-written OCaml float dictionary (IEEE doubles + glibc libm stand in for R in the executable model) and driver, the Python serializer/comparator. Modelled, not verified: numpy, CPython float formatting/rounding, libqasm, quantify-scheduler, networkx. Translator trusted to read the listed AST shapes (fail-closed); aliases are not parseable by libqasm (parser path excluded for them).",
-        "technique": 'Coq 8.16.1 proof over an executable Gallina model; model tied to /repo by extraction to OCaml run against the implementation on generated inputs (correspondence) and, for tables/constants, by a translator + reflexivity check; independent numpy oracle searches for failing inputs',
+        "technique": 'Coq 8.16.1 proof over an executable Gallina model; model tied to /repo by extraction to OCaml run against the implementation on generated inputs (correspondence) and, for tables/constants, by a translator (tables, constants, numeric kernels) whose output is proved equal to the model; independent numpy oracle searches for failing inputs',
         "design_ref": "DESIGN.md section 6 C07",
     },
     'C08': {
-        "text": 'Bit lemmas for any operand list and any ket (closed); entry-wise bitwise specification of get_matrix for rotations, nested controls and matrix gates on a register of ANY size, refusals, product order, unitarity (MatrixP, over R where ring laws are needed). Exhaustive placements on 1..4 qubits, exhaustive bit functions, random circuits; independent einsum oracle.',
+        "text": 'Bit lemmas for any operand list and any ket (closed); entry-wise bitwise specification of get_matrix for rotations, nested controls and matrix gates on a register of ANY size, refusals, product order, unitarity (MatrixP, over R where ring laws are needed). Exhaustive placements on 1..4 qubits, exhaustive bit functions, random circuits; independent einsum oracle. can1 is regenerated from the source and proved equal to the model (can1_ok).',
         "note": "Trusted: Coq kernel (coqc, full .vo build; axioms printed per theorem, only those of the standard library's Reals where R is used), extraction with ExtrOcamlBasic/ExtrOcamlString only, the hand-written OCaml float dictionary (IEEE doubles + glibc libm stand in for R in the executable model) and driver, the Python serializer/comparator. Modelled, not verified: numpy, CPython float formatting/rounding, libqasm, quantify-scheduler, networkx. numpy kron/matmul modelled by their definitions.",
-        "technique": 'Coq 8.16.1 proof over an executable Gallina model; model tied to /repo by extraction to OCaml run against the implementation on generated inputs (correspondence) and, for tables/constants, by a translator + reflexivity check; independent numpy oracle searches for failing inputs',
+        "technique": 'Coq 8.16.1 proof over an executable Gallina model; model tied to /repo by extraction to OCaml run against the implementation on generated inputs (correspondence) and, for tables/constants, by a translator (tables, constants, numeric kernels) whose output is proved equal to the model; independent numpy oracle searches for failing inputs',
         "design_ref": "DESIGN.md section 6 C08",
     },
     'C09': {
         "text": "Layout by prefix sums, disjoint consecutive ranges, zip semantics, element-wise expansion of gates / measures / resets, program order, first error wins, library lookup and aliases (closed). Programs rendered from flat instruction lists in random surface forms parsed by the real front end and by the model on libqasm's AST. Known finding: redeclared variable names.",
         "note": "Trusted: Coq kernel (coqc, full .vo build; axioms printed per theorem, only those of the standard library's Reals where R is used), extraction with ExtrOcamlBasic/ExtrOcamlString only, the hand-written OCaml float dictionary (IEEE doubles + glibc libm stand in for R in the executable model) and driver, the Python serializer/comparator. Modelled, not verified: numpy, CPython float formatting/rounding, libqasm, quantify-scheduler, networkx. libqasm (lexing, parsing, analysis, constant folding) is an oracle entering as the dumped AST.",
-        "technique": 'Coq 8.16.1 proof over an executable Gallina model; model tied to /repo by extraction to OCaml run against the implementation on generated inputs (correspondence) and, for tables/constants, by a translator + reflexivity check; independent numpy oracle searches for failing inputs',
+        "technique": 'Coq 8.16.1 proof over an executable Gallina model; model tied to /repo by extraction to OCaml run against the implementation on generated inputs (correspondence) and, for tables/constants, by a translator (tables, constants, numeric kernels) whose output is proved equal to the model; independent numpy oracle searches for failing inputs',
         "design_ref": "DESIGN.md section 6 C09",
     },
     'C10': {
-        "text": "Target gate sets by branch enumeration of the models: A-B-A (<=3, order A,B,A, named, non-identity), McKay (<=5 from {Rz, X90}, <=2 X90; under pi/2 not below ATOL, proved at R; refuted for a degenerate instance), CNOT (<=2 CNOT + Ry/Rz on the two qubits), pass-through of out-of-scope gates as the same object. Shares C01's case space plus the CNOT->merge->McKay pipeline.",
+        "text": "Target gate sets by branch enumeration of the models: A-B-A (<=3, order A,B,A, named, non-identity), McKay (<=5 from {Rz, X90}, <=2 X90; under pi/2 not below ATOL, proved at R; refuted for a degenerate instance), CNOT (<=2 CNOT + Ry/Rz on the two qubits), pass-through of out-of-scope gates as the same object. Shares C01's case space plus the CNOT->merge->McKay pipeline. Proposal exactness on any qubits of any register (mckay_proposal_exact, cnot_proposal_exact); kernels regenerated from the source.",
         "note": "Trusted: Coq kernel (coqc, full .vo build; axioms printed per theorem, only those of the standard library's Reals where R is used), extraction with ExtrOcamlBasic/ExtrOcamlString only, the hand-written OCaml float dictionary (IEEE doubles + glibc libm stand in for R in the executable model) and driver, the Python serializer/comparator. Modelled, not verified: numpy, CPython float formatting/rounding, libqasm, quantify-scheduler, networkx. Writable/re-parsable is checked by the real writer and parser on a sample.",
-        "technique": 'Coq 8.16.1 proof over an executable Gallina model; model tied to /repo by extraction to OCaml run against the implementation on generated inputs (correspondence) and, for tables/constants, by a translator + reflexivity check; independent numpy oracle searches for failing inputs',
+        "technique": 'Coq 8.16.1 proof over an executable Gallina model; model tied to /repo by extraction to OCaml run against the implementation on generated inputs (correspondence) and, for tables/constants, by a translator (tables, constants, numeric kernels) whose output is proved equal to the model; independent numpy oracle searches for failing inputs',
         "design_ref": "DESIGN.md section 6 C10",
     },
     'C11': {
-        "text": 'One operation per statement in order, acquisition index = number of earlier measurements of the qubit, bit map = last write, unsupported statements raise (structural, closed); Rxy/Rz denotation incl. the signed -z case and CNOT/CZ only for exact controlled X/Z incl. the negated-axis representation (over R). Operations are read back from the real quantify-scheduler Schedule.',
+        "text": 'One operation per statement in order, acquisition index = number of earlier measurements of the qubit, bit map = last write, unsupported statements raise (structural, closed); Rxy/Rz denotation incl. the signed -z case and CNOT/CZ only for exact controlled X/Z incl. the negated-axis representation (over R). Operations are read back from the real quantify-scheduler Schedule. WHOLE SCHEDULE: export_qs_same_operation (executing the exported operations does the circuit\'s operation for every outcome assignment, up to a global phase, exact families, unrounded degrees) with the rounding bounded (5e-6 degrees, 1.67e-7 per operator entry) and three tolerance observations proved (SemQSP).',
         "note": "Trusted: Coq kernel (coqc, full .vo build; axioms printed per theorem, only those of the standard library's Reals where R is used), extraction with ExtrOcamlBasic/ExtrOcamlString only, the hand-written OCaml float dictionary (IEEE doubles + glibc libm stand in for R in the executable model) and driver, the Python serializer/comparator. Modelled, not verified: numpy, CPython float formatting/rounding, libqasm, quantify-scheduler, networkx. quantify-scheduler enters as the list of operations; 5-decimal rounding contract proved (deg5_error).",
-        "technique": 'Coq 8.16.1 proof over an executable Gallina model; model tied to /repo by extraction to OCaml run against the implementation on generated inputs (correspondence) and, for tables/constants, by a translator + reflexivity check; independent numpy oracle searches for failing inputs',
+        "technique": 'Coq 8.16.1 proof over an executable Gallina model; model tied to /repo by extraction to OCaml run against the implementation on generated inputs (correspondence) and, for tables/constants, by a translator (tables, constants, numeric kernels) whose output is proved equal to the model; independent numpy oracle searches for failing inputs',
         "design_ref": "DESIGN.md section 6 C11",
     },
     'C12': {
-        "text": "Line shapes of the cQASM 1 export (lower-cased name, qubits, parameters; measure_z / prep_z), anonymous gates refused at every position, exported qubits are the mapped ones (closed). Text compared with the model's and read back with a cQASM 1 meaning table.",
+        "text": "Line shapes of the cQASM 1 export (lower-cased name, qubits, parameters; measure_z / prep_z), anonymous gates refused at every position, exported qubits are the mapped ones (closed). Text compared with the model's and read back with a cQASM 1 meaning table. READ BACK: Model/Reader.read1 (run against the line oracle) and v1_read_back_statements / v1_read_back_same_operation: the exported text with the cQASM 1 meaning of each name is the circuit (8-digit parameters, bit targets = the qubit's own bit) (SemV1P).",
         "note": "Trusted: Coq kernel (coqc, full .vo build; axioms printed per theorem, only those of the standard library's Reals where R is used), extraction with ExtrOcamlBasic/ExtrOcamlString only, the hand-written OCaml float dictionary (IEEE doubles + glibc libm stand in for R in the executable model) and driver, the Python serializer/comparator. Modelled, not verified: numpy, CPython float formatting/rounding, libqasm, quantify-scheduler, networkx. Meaning table written for this check.",
-        "technique": 'Coq 8.16.1 proof over an executable Gallina model; model tied to /repo by extraction to OCaml run against the implementation on generated inputs (correspondence) and, for tables/constants, by a translator + reflexivity check; independent numpy oracle searches for failing inputs',
+        "technique": 'Coq 8.16.1 proof over an executable Gallina model; model tied to /repo by extraction to OCaml run against the implementation on generated inputs (correspondence) and, for tables/constants, by a translator (tables, constants, numeric kernels) whose output is proved equal to the model; independent numpy oracle searches for failing inputs',
         "design_ref": "DESIGN.md section 6 C12",
     },
     'C13': {
         "text": 'builder_wf / builder_run_wf: for EVERY call sequence the builder holds only well-formed statements; exact characterisation of accepted calls; refused calls have no effect; snapshots are prefixes (closed). Random call sequences with invalid indices/types/arity against the real CircuitBuilder; cQASM-source violations against the parser.',
         "note": "Trusted: Coq kernel (coqc, full .vo build; axioms printed per theorem, only those of the standard library's Reals where R is used), extraction with ExtrOcamlBasic/ExtrOcamlString only, the hand-written OCaml float dictionary (IEEE doubles + glibc libm stand in for R in the executable model) and driver, the Python serializer/comparator. Modelled, not verified: numpy, CPython float formatting/rounding, libqasm, quantify-scheduler, networkx. isinstance / inspect.signature modelled by explicit case analysis; raw Python floats as qubit operands are outside the generated calls.",
-        "technique": 'Coq 8.16.1 proof over an executable Gallina model; model tied to /repo by extraction to OCaml run against the implementation on generated inputs (correspondence) and, for tables/constants, by a translator + reflexivity check; independent numpy oracle searches for failing inputs',
+        "technique": 'Coq 8.16.1 proof over an executable Gallina model; model tied to /repo by extraction to OCaml run against the implementation on generated inputs (correspondence) and, for tables/constants, by a translator (tables, constants, numeric kernels) whose output is proved equal to the model; independent numpy oracle searches for failing inputs',
         "design_ref": "DESIGN.md section 6 C13",
     },
     'C14': {
-        "text": 'merge_normal_form (no two rotations on a qubit without a barrier on it), merge_no_identity_emitted, lone gate keeps its name (compose_inherits), with the necessary hypothesis exhibited by a refutation (closed). Same case space as C02 with a second merge.',
+        "text": 'merge_normal_form (no two rotations on a qubit without a barrier on it), merge_no_identity_emitted, lone gate keeps its name (compose_inherits), with the necessary hypothesis exhibited by a refutation (closed). Same case space as C02 with a second merge. merge_same_operation (merging, hence merging again, preserves the operation; exact setting); compose/is_identity regenerated from the source.',
         "note": "Trusted: Coq kernel (coqc, full .vo build; axioms printed per theorem, only those of the standard library's Reals where R is used), extraction with ExtrOcamlBasic/ExtrOcamlString only, the hand-written OCaml float dictionary (IEEE doubles + glibc libm stand in for R in the executable model) and driver, the Python serializer/comparator. Modelled, not verified: numpy, CPython float formatting/rounding, libqasm, quantify-scheduler, networkx. Idempotence of the operation is checked by the oracle.",
-        "technique": 'Coq 8.16.1 proof over an executable Gallina model; model tied to /repo by extraction to OCaml run against the implementation on generated inputs (correspondence) and, for tables/constants, by a translator + reflexivity check; independent numpy oracle searches for failing inputs',
+        "technique": 'Coq 8.16.1 proof over an executable Gallina model; model tied to /repo by extraction to OCaml run against the implementation on generated inputs (correspondence) and, for tables/constants, by a translator (tables, constants, numeric kernels) whose output is proved equal to the model; independent numpy oracle searches for failing inputs',
         "design_ref": "DESIGN.md section 6 C14",
     },
     'C15': {
         "text": 'normalize_angle range / congruence / identity on the range / idempotence, unit parallel axis, constructor refusals as iff (mk_ctrl, mk_mat), about the normalize_angle regenerated from common.py (TableCheck). (axis, angle, phase) grids incl. zero, tiny, huge, inf/nan axes; exhaustive operand lists.',
         "note": "Trusted: Coq kernel (coqc, full .vo build; axioms printed per theorem, only those of the standard library's Reals where R is used), extraction with ExtrOcamlBasic/ExtrOcamlString only, the hand-written OCaml float dictionary (IEEE doubles + glibc libm stand in for R in the executable model) and driver, the Python serializer/comparator. Modelled, not verified: numpy, CPython float formatting/rounding, libqasm, quantify-scheduler, networkx. Overflow/underflow/NaN behaviour only through the float layer (correspondence + oracle).",
-        "technique": 'Coq 8.16.1 proof over an executable Gallina model; model tied to /repo by extraction to OCaml run against the implementation on generated inputs (correspondence) and, for tables/constants, by a translator + reflexivity check; independent numpy oracle searches for failing inputs',
+        "technique": 'Coq 8.16.1 proof over an executable Gallina model; model tied to /repo by extraction to OCaml run against the implementation on generated inputs (correspondence) and, for tables/constants, by a translator (tables, constants, numeric kernels) whose output is proved equal to the model; independent numpy oracle searches for failing inputs',
         "design_ref": "DESIGN.md section 6 C15",
     },
     'C16': {
-        "text": 'bsr_eq_iff (exact characterisation of rotation equality), equality of the operators in each accepting representation (can1 lemmas), dispatch to the matrix comparison for every other pair in both orders, soundness/completeness of the matrix comparison, relabel invariance. All ordered pairs of a pool with several representations per operation and near-misses.',
+        "text": 'bsr_eq_iff (exact characterisation of rotation equality), equality of the operators in each accepting representation (can1 lemmas), dispatch to the matrix comparison for every other pair in both orders, soundness/completeness of the matrix comparison, relabel invariance. All ordered pairs of a pool with several representations per operation and near-misses. BlochSphereRotation.__eq__ is regenerated from the source and proved equal to the model (bsr_eq_ok); the repaired matrix comparison is re-proved.',
         "note": "Trusted: Coq kernel (coqc, full .vo build; axioms printed per theorem, only those of the standard library's Reals where R is used), extraction with ExtrOcamlBasic/ExtrOcamlString only, the hand-written OCaml float dictionary (IEEE doubles + glibc libm stand in for R in the executable model) and driver, the Python serializer/comparator. Modelled, not verified: numpy, CPython float formatting/rounding, libqasm, quantify-scheduler, networkx. Tolerance gap respected; the comparison factor is not forced to modulus 1 (observation for non-unitary matrix gates).",
-        "technique": 'Coq 8.16.1 proof over an executable Gallina model; model tied to /repo by extraction to OCaml run against the implementation on generated inputs (correspondence) and, for tables/constants, by a translator + reflexivity check; independent numpy oracle searches for failing inputs',
+        "technique": 'Coq 8.16.1 proof over an executable Gallina model; model tied to /repo by extraction to OCaml run against the implementation on generated inputs (correspondence) and, for tables/constants, by a translator (tables, constants, numeric kernels) whose output is proved equal to the model; independent numpy oracle searches for failing inputs',
         "design_ref": "DESIGN.md section 6 C16",
     },
     'C17': {
         "text": 'PARTIAL by nature: proved - the result of each pass does not depend on object identities (oid-irrelevance), untouched statements are the same objects, no pass takes the default tables as state, the matrix comparison is invariant under relabelling (the only iteration over a hashed set). Monitored at run time - byte-identical output across interleavings in one process and across fresh processes under PYTHONHASHSEED in {0,1,2,random}, table fingerprints, callback/shared-object mutation.',
         "note": "Trusted: Coq kernel (coqc, full .vo build; axioms printed per theorem, only those of the standard library's Reals where R is used), extraction with ExtrOcamlBasic/ExtrOcamlString only, the hand-written OCaml float dictionary (IEEE doubles + glibc libm stand in for R in the executable model) and driver, the Python serializer/comparator. Modelled, not verified: numpy, CPython float formatting/rounding, libqasm, quantify-scheduler, networkx. CPython string hashing, module-level state and ndarray aliasing cannot be exhibited by a Gallina function; they are monitored, not proved.",
-        "technique": 'Coq 8.16.1 proof over an executable Gallina model; model tied to /repo by extraction to OCaml run against the implementation on generated inputs (correspondence) and, for tables/constants, by a translator + reflexivity check; independent numpy oracle searches for failing inputs',
+        "technique": 'Coq 8.16.1 proof over an executable Gallina model; model tied to /repo by extraction to OCaml run against the implementation on generated inputs (correspondence) and, for tables/constants, by a translator (tables, constants, numeric kernels) whose output is proved equal to the model; independent numpy oracle searches for failing inputs',
         "design_ref": "DESIGN.md section 6 C17",
     },
     'C18': {
         "text": 'Edge iff a gate with exactly those two operands (any kind, any order), other statements contribute nothing, accepted iff every gate has 1 or 2 operands, >= 3 operands refused, node set (any element type, closed). Exhaustive placements on 4 qubits and random circuits.',
         "note": "Trusted: Coq kernel (coqc, full .vo build; axioms printed per theorem, only those of the standard library's Reals where R is used), extraction with ExtrOcamlBasic/ExtrOcamlString only, the hand-written OCaml float dictionary (IEEE doubles + glibc libm stand in for R in the executable model) and driver, the Python serializer/comparator. Modelled, not verified: numpy, CPython float formatting/rounding, libqasm, quantify-scheduler, networkx. networkx modelled as an edge set.",
-        "technique": 'Coq 8.16.1 proof over an executable Gallina model; model tied to /repo by extraction to OCaml run against the implementation on generated inputs (correspondence) and, for tables/constants, by a translator + reflexivity check; independent numpy oracle searches for failing inputs',
+        "technique": 'Coq 8.16.1 proof over an executable Gallina model; model tied to /repo by extraction to OCaml run against the implementation on generated inputs (correspondence) and, for tables/constants, by a translator (tables, constants, numeric kernels) whose output is proved equal to the model; independent numpy oracle searches for failing inputs',
         "design_ref": "DESIGN.md section 6 C18",
     },
     'C19': {
         "text": 'PARTIAL by nature: proved - matrices built by the checker have dimension 2^(operands of the gate) whatever the register (check_replacement_dim), every pass commutes with relabelling / order-preserving compression of qubit indices (CostP), the embedding theorem (EmbedP). Measured at run time - matrix sizes actually requested (wrapping MatrixExpander), wall time and tracemalloc peak on registers of 64..100000 qubits, equality with the compressed run.',
         "note": "Trusted: Coq kernel (coqc, full .vo build; axioms printed per theorem, only those of the standard library's Reals where R is used), extraction with ExtrOcamlBasic/ExtrOcamlString only, the hand-written OCaml float dictionary (IEEE doubles + glibc libm stand in for R in the executable model) and driver, the Python serializer/comparator. Modelled, not verified: numpy, CPython float formatting/rounding, libqasm, quantify-scheduler, networkx. Wall-clock time and memory are not provable in Coq; budgets 20 s / 400 MB per pipeline.",
-        "technique": 'Coq 8.16.1 proof over an executable Gallina model; model tied to /repo by extraction to OCaml run against the implementation on generated inputs (correspondence) and, for tables/constants, by a translator + reflexivity check; independent numpy oracle searches for failing inputs',
+        "technique": 'Coq 8.16.1 proof over an executable Gallina model; model tied to /repo by extraction to OCaml run against the implementation on generated inputs (correspondence) and, for tables/constants, by a translator (tables, constants, numeric kernels) whose output is proved equal to the model; independent numpy oracle searches for failing inputs',
         "design_ref": "DESIGN.md section 6 C19",
     },
     'C20': {
-        "text": 'Line shapes for ANY name and ANY argument list (any number/position of parameters), relabelling of both descriptions, replacer keyed on the generator name, pass-through of gates a decomposer does not rewrite (closed). A family of user gates with arbitrary parameter names through the builder, every pass, both text outputs and replace().',
+        "text": 'Line shapes for ANY name and ANY argument list (any number/position of parameters), relabelling of both descriptions, replacer keyed on the generator name, pass-through of gates a decomposer does not rewrite (closed). A family of user gates with arbitrary parameter names through the builder, every pass, both text outputs and replace(). The text-level round trip (read3_write3, read1_export_v1) holds for any identifier names and argument lists, hence for user gates.',
         "note": "Trusted: Coq kernel (coqc, full .vo build; axioms printed per theorem, only those of the standard library's Reals where R is used), extraction with ExtrOcamlBasic/ExtrOcamlString only, the hand-written OCaml float dictionary (IEEE doubles + glibc libm stand in for R in the executable model) and driver, the Python serializer/comparator. Modelled, not verified: numpy, CPython float formatting/rounding, libqasm, quantify-scheduler, networkx. User gate names cannot be re-parsed by libqasm (fixed instruction set).",
-        "technique": 'Coq 8.16.1 proof over an executable Gallina model; model tied to /repo by extraction to OCaml run against the implementation on generated inputs (correspondence) and, for tables/constants, by a translator + reflexivity check; independent numpy oracle searches for failing inputs',
+        "technique": 'Coq 8.16.1 proof over an executable Gallina model; model tied to /repo by extraction to OCaml run against the implementation on generated inputs (correspondence) and, for tables/constants, by a translator (tables, constants, numeric kernels) whose output is proved equal to the model; independent numpy oracle searches for failing inputs',
         "design_ref": "DESIGN.md section 6 C20",
     },
 }
